@@ -7,45 +7,7 @@ THEOREMS = ["C03_reachable_wf", "C03_decision_is_reported_list", "C03_add_presen
             "C03_total_counts_reported", "C03_lists_independent", "C03_delivery_uses_read_acl"]
 
 
-def acl_histories(r, thorough):
-    """directed: an owner edits one ACL type with random batches, reads it back, then every user probes it"""
-    cases = []
-    for _ in range(60 if thorough else 12):
-        cfg = sl.base_cfg(r, None)
-        cfg.update({"max_clients": 10, "max_subs": 10, "max_conns": 16})
-        g = sl.Gen(r, cfg)
-        ks = {}
-        for u in sl.USERS:
-            k = g.next_k
-            g.next_k += 1
-            g.ops.append({"t": "open", "k": k})
-            g.send(k, sl.frame("CONNECT", [("version", 1), ("heartbeat_interval", 0)]))
-            g.send(k, sl.frame("IDENTIFY", [("username", u)]))
-            g.conns[k] = {"phase": 2, "user": u}
-            ks[u] = k
-        ch = "!c1@localhost"
-        owner = ks["alice"]
-        g.send(owner, sl.frame("JOIN", [("id", g.rid()), ("channel", ch)]))
-        ty = r.choice(["join", "publish", "read"])
-        if ty != "join":
-            for u in ("bob", "carol"):
-                g.send(ks[u], sl.frame("JOIN", [("id", g.rid()), ("channel", ch)]))
-        for _ in range(r.randint(1, 5)):
-            nids = [r.choice(sl.ACL_NIDS[:8]) for _ in range(r.choice([1, 1, 2, 3]))]
-            g.send(owner, sl.frame("SET_CHAN_ACL", [("id", g.rid()), ("channel", ch), ("type", ty),
-                                                    ("action", r.choice(["add", "add", "remove"])), ("nids", nids)]))
-            g.send(owner, sl.frame("GET_CHAN_ACL", [("id", g.rid()), ("channel", ch), ("type", ty)]))
-        for u in sl.USERS[1:]:
-            if ty == "join":
-                g.send(ks[u], sl.frame("JOIN", [("id", g.rid()), ("channel", ch)]))
-            elif ty == "publish":
-                g.send(ks[u], sl.frame("BROADCAST", [("id", g.rid()), ("channel", ch), ("length", 3)], b"abc"))
-        if ty == "read":
-            g.send(owner, sl.frame("BROADCAST", [("id", g.rid()), ("channel", ch), ("length", 3)], b"xyz"))
-        if ty == "join":
-            g.send(owner, sl.frame("JOIN", [("id", g.rid()), ("channel", ch), ("on_behalf", "dave@localhost")]))
-        cases.append({"cfg": cfg, "ops": g.ops})
-    return cases
+acl_histories = sl.acl_histories
 
 
 def run(tier, replay=None):
